@@ -174,14 +174,14 @@ namespace TAO_PEGTL_NAMESPACE
 
       void require( const std::size_t amount )
       {
-         if( m_current.data + amount <= m_end ) {
-            return;
-         }
 #if defined( TAO_PEGTL_VERIF )
          if( internal::verif::hooks.buffer_require != nullptr ) {
             internal::verif::hooks.buffer_require( this, std::size_t( m_current.data - m_buffer.get() ), amount, m_maximum, std::size_t( m_end - m_current.data ) );
          }
 #endif
+         if( m_current.data + amount <= m_end ) {
+            return;
+         }
          if( m_current.data + amount > m_buffer.get() + m_maximum ) {
 #if defined( __cpp_exceptions )
             throw std::overflow_error( "require() beyond end of buffer" );
